@@ -98,6 +98,27 @@ def leak_site(script, c):
     return "?"
 
 
+# after the re-initialisation an ordinary session must work
+init_tail = policy_line(1) + "\ncreate 1 1\n" + pkt_op("protect", 1, rtp_packet(0xcafebabe, 1, payload=b"abcd"), extra=40) + "\ndealloc 1\nheap\n"
+
+
+def init_monitor(script, c):
+    hits = []
+    for l in c:
+        t = l.split()
+        if len(t) > 5 and t[1] == "reinit":
+            st1, st2, leaked, st3 = (int(x, 16) if not x.startswith("-") else -int(x[1:], 16) for x in t[2:6])
+            if leaked != 0:
+                hits.append({"what": "blocks obtained by srtp_init remain allocated after srtp_shutdown (an allocation inside srtp_init had failed)" if st1 else
+                                     "blocks obtained by srtp_init remain allocated after srtp_shutdown",
+                             "signature": "init-leak", "detail": l}); break
+            if st3 != 0:
+                hits.append({"what": "the library cannot be brought up again after a failed srtp_init + srtp_shutdown", "signature": "init-stuck", "detail": l}); break
+        if len(t) > 2 and t[1] in ("create", "protect", "dealloc") and int(t[2], 16) != 0:
+            hits.append({"what": "session does not work after the library was re-initialised", "signature": "init-after", "detail": l}); break
+    return hits
+
+
 def families(tier, seed, ctx):
     """every allocation of every operation is failed once: the number of allocations an operation makes is read off
     the implementation's own run of the failure-free script (heap lines: live, attempts since the last heap line, ...)"""
@@ -118,4 +139,9 @@ def families(tier, seed, ctx):
                 for n in range(1, min(att, 80) + 1):
                     t2, _ = lifecycle(random.Random(sd), fail_at=n, fail_op=op, kind=k)
                     scripts.append((f"fail-k{k}-v{v}-op{op}-n{n}", t2))
-    return [Family("lifecycle-failnth", scripts, monitor=monitor)]
+    # srtp_init / srtp_shutdown themselves: the crypto kernel links ~24 list nodes (debug modules, cipher and auth types) one by one;
+    # each allocation is failed once, srtp_shutdown must hand everything back and a later srtp_init must work.  Observed on the
+    # implementation only (the kernel's registry is not part of the Gallina model): model=False
+    init_scripts = [(f"init-fail-{n}", f"reinit {n:x}\n" + init_tail) for n in range(0, 41)]
+    return [Family("lifecycle-failnth", scripts, monitor=monitor),
+            Family("library-bring-up-failnth", init_scripts, monitor=init_monitor, model=False)]
